@@ -6,3 +6,5 @@ open WebPkg.C03
 #print axioms numberOfPossibleKeys_is_product
 #print axioms index_injective
 #print axioms offsets_accounting
+#print axioms read_write
+#print axioms read_write_b2
